@@ -946,10 +946,10 @@ def rule_merge(ctx):
              and (local_of(y["args"][0]) in removed_locals or any(z in removes for z in walk(y["args"][0])))]
     if ids is None or ct is None:
         res.undecided("%s : insert-args" % key, "insert arguments are not plain locals (fail closed)", fn_loc(fn, ins.get("ln")))
-    elif len(joins) >= 2:
-        res.ok()
+    elif len(joins) + (1 if ids in removed_locals else 0) >= 2:
+        res.ok()        # two clusters joined into a fresh list, or one removed cluster extended by the other
     elif len(removes) == 2:
-        res.violate("%s : merge-drops-members" % key, "the inserted union receives the members of %d of the two removed clusters: the others get no cluster" % len(joins), fn_loc(fn, ins.get("ln")))
+        res.violate("%s : merge-drops-members" % key, "the inserted union receives the members of %d of the two removed clusters: the others get no cluster" % (len(joins) + (1 if ids in removed_locals else 0)), fn_loc(fn, ins.get("ln")))
     else:
         res.undecided("%s : union" % key, "joins: %d (fail closed)" % len(joins), fn_loc(fn))
     res.instance("%s : fresh ids n, n+1, .." % key)
